@@ -47,7 +47,7 @@ class Origin:
         return self.key() == o.key()
 
 
-def origins(body, start, passthrough_extra=(), stop_calls=(), max_nodes=4000, follow_all_calls=False):
+def origins(body, start, passthrough_extra=(), stop_calls=(), max_nodes=4000, follow_all_calls=False, _depth=0):
     """start: operand json, place json, or local index (or list of those).
     Returns (set of Origin, set of visited locals, list of traversed def sites).
     Origin kinds: 'arg' (argument index/name), 'const', 'call' (non-passthrough call result;
@@ -121,6 +121,15 @@ def origins(body, start, passthrough_extra=(), stop_calls=(), max_nodes=4000, fo
                 rv = node["rv"]
                 if rv["k"] == "tlsref":
                     outs.add(Origin("static", rv["static"]))
+                if follow_all_calls and rv["k"] == "agg" and rv.get("akind") == "closure" and _depth < 2:
+                    # a closure value handed to a call (`x.and_then(|p| ..)`): what the call yields also depends on
+                    # what the closure body reads - the fields it loads and the calls it makes
+                    cb = getattr(body, "facts", None) and body.facts.bodies.get(rv.get("name"))
+                    if cb is not None:
+                        co, _, _ = origins(cb, {"l": 0, "p": []}, passthrough_extra=passthrough_extra, stop_calls=stop_calls, max_nodes=max_nodes, follow_all_calls=True, _depth=_depth + 1)
+                        for o_ in co:
+                            if o_.kind in ("field", "call", "static"):
+                                outs.add(o_)
                 for o in rv_operands(rv):
                     push_any(o)
             else:  # call
